@@ -175,7 +175,7 @@ func runC11(c *core.Ctx) {
 	}
 
 	// (3) -----------------------------------------------------------------------------------------
-	rp := c.MustFunc(pkg + ".(*AdjRIBOut).removePath")
+	rp := c.MustFunc(pkg + ".(*AdjRIBOut).removeExportedPath")
 	rel := p.Func(pkg + ".(*pathIDManager).releasePath")
 	rtF := p.Field(pkg, "AdjRIBOut", "rt")
 	if rp != nil && rel != nil && rtF != nil {
